@@ -75,7 +75,21 @@ let transcript w steps =
     if !fail = None then begin
       let k = int_of_string (String.sub step 1 (String.length step - 1)) in
       Buffer.add_string b ("r" ^ rem () ^ ":");
-      if step.[0] = 'c' then begin
+      if step.[0] = 'b' then begin
+        (* copy_to_bytes(k) *)
+        match wb_copy_to_bytes (n_of_int k) !w with
+        | Ok (o, s) -> Buffer.add_string b (hex_of_bytes o ^ " "); w := s
+        | _ -> fail := Some "panic"
+      end else if step.[0] = 'v' then begin
+        (* a reader going through chunks_vectored(): at most k bytes of the slices it is shown *)
+        match wb_chunks_vectored !w with
+        | Ok sl ->
+          let all = List.concat sl in
+          let n = min k (List.length all) in
+          Buffer.add_string b (hex_of_bytes (take n all) ^ " ");
+          (match wb_advance (n_of_int n) !w with Ok s -> w := s | _ -> fail := Some "panic")
+        | _ -> fail := Some "panic"
+      end else if step.[0] = 'c' then begin
         match wb_chunk !w with
         | Ok c ->
           let n = min k (List.length c) in
@@ -115,6 +129,7 @@ let parse_cfg s =
   let g = ref true and m = ref (n_of_string "4611686018427387903") and x = ref false and d = ref false
   and w = ref false and nn = ref N0 in
   List.iter (fun p ->
+    if p = "-" || p = "new" then () else
     let v = String.sub p 1 (String.length p - 1) in
     match p.[0] with
     | 'g' -> g := v <> "0" | 'm' -> m := n_of_string v | 'x' -> x := v <> "0" | 'd' -> d := v <> "0"
@@ -184,41 +199,144 @@ let judge_line server toks =
     | x -> x) toks in
   if bad = [] then "ok" else "bad " ^ String.concat " " bad
 
-let run_wr role cfgs prog =
+(* sizes (RFC 9114 4.2.2) of what the harness makes h3 send: `:status NNN`, the trailer `x-t: 1`, the requests *)
+let response_size = 42
+let trailers_size = 36
+let request_size m = 7 + String.length m + 32 + 44 + 43 + 38
+
+let big_grease = n_of_string "148764065110560898"   (* a draw whose identifier takes 8 bytes, like (almost) every real one *)
+
+(* the programs in which the driver can follow the write budget exactly: nothing but peer control frames and polls, and
+   no GOAWAY (which would make the server write).  There the partially accepted grease write is predicted (Some k) *)
+let exact_budget budget ops =
+  budget <> "-" &&
+  List.for_all (fun o ->
+    let (k, a) = split2 o ':' in
+    let whole bytes = (match rfc_frames bytes with
+                       | Some fs -> List.for_all (fun (t, _) -> int_of_n t <> 7) fs
+                       | None -> false) in
+    match k with
+    | "poll" -> true
+    | "peer" -> (match rfc_read_varint (bytes_of_hex (if a = "" then "000400" else a)) with
+                 | Some (t, rest) when t = N0 -> whole rest
+                 | _ -> false)
+    | "pframe" -> whole (bytes_of_hex a)
+    | _ -> false) ops
+
+(* the peer's MAX_FIELD_SECTION_SIZE in a SETTINGS payload *)
+let settings_mfs payload =
+  match rfc_settings_pairs payload with
+  | Some l -> (try Some (List.assoc (n_of_int 6) l) with Not_found -> None)
+  | None -> None
+
+let run_wr role cfgs budget prog =
   let server = role = "s" in
   let cfg = parse_cfg cfgs in
-  match setup server cfg N0 with
+  let ops = if prog = "-" then [] else String.split_on_char ',' prog in
+  let exact = exact_budget budget ops in
+  let g0 = if exact then big_grease else N0 in
+  match setup server cfg g0 with
   | Ok None -> "build-err"
   | Err _ | Panic _ -> "panic"
   | Ok (Some c0) ->
     let c = ref c0 in
     let failed = ref false in
+    let lost = ref false in          (* xu: the transport is gone, every later call fails without writing *)
     let cur = ref None in
     let next_peer = ref 0 in
     let peer_open = ref false in
+    let seen_enc = ref false and seen_dec = ref false in
+    let peer_mfs = ref (n_of_string "4611686018427387903") in
     let do_step o = if not !failed then (match step !c o with Ok c' -> c := c' | _ -> failed := true) in
-    let ops = if prog = "-" then [] else String.split_on_char ',' prog in
+    let fits sz = not (N.ltb !peer_mfs (n_of_int sz)) in
+    (* ---- the write budget as harness/src/bin/c14.rs hands it out (exact mode only) ---- *)
+    let (b0, grants) =
+      if budget = "-" then (0, [|1|]) else
+      let (b, g) = split2 budget ':' in
+      (int_of_string b, Array.of_list (List.map int_of_string (String.split_on_char '.' (if g = "" then "1" else g)))) in
+    let gi = ref 0 in
+    let next_grant () = let k = max 1 grants.(!gi mod Array.length grants) in incr gi; k in
+    if exact then begin
+      (* setup: control header, encoder and decoder type are written concurrently, one grant per round to all three *)
+      let ctl = List.find (fun s -> s.s_id = !c.c_control) !c.c_streams in
+      let need = ref (List.length (stream_wire ctl) - b0) in
+      while !need > 0 do need := !need - next_grant () done
+    end;
+    let g_total = 23 in
+    let g_written = ref 0 and g_avail = ref b0 and g_wait = ref false in
+    let peer_control (ty, payload) =
+      let f = classify_control (ty, payload) in
+      let returned = (not !c.c_conn_error) && (match f with
+        | PSettings -> not !c.c_got_settings
+        | PGoaway _ | PPush -> !c.c_got_settings
+        | _ -> false) in
+      if returned && f = PSettings then (match settings_mfs payload with Some v -> peer_mfs := v | None -> ());
+      if not exact then do_step (OPeerControl (f, N0, N0, None))
+      else begin
+        let runs = returned && !c.c_grease_stream in
+        let t = min !g_avail (g_total - !g_written) in
+        let w' = !g_written + t in
+        do_step (OPeerControl (f, big_grease, big_grease, (if w' = g_total then None else Some (n_of_int w'))));
+        if runs then begin
+          g_written := w'; g_avail := !g_avail - t;
+          if w' < g_total then g_wait := true
+        end
+      end in
+    let rec control_stream bs =
+      match bs with
+      | [] -> ()
+      | _ -> (match rfc_read_frame bs with
+              | Some (f, rest) -> peer_control f; control_stream rest
+              | None -> ()) in
+    let end_of_poll () =
+      if server then begin
+        do_step OPoll;
+        (* accept() stayed pending (no connection error): the harness serves the blocked grease write with one grant *)
+        if exact && !g_wait && not !c.c_conn_error then begin g_avail := !g_avail + next_grant (); g_wait := false end
+      end in
     List.iter (fun o ->
       let (k, a) = split2 o ':' in
       let nh () = List.length !c.c_handles in
+      if !lost then begin
+        (* only the peer's streams still show up *)
+        (match k with
+         | "acc" when server -> let sid = !next_peer in next_peer := sid + 4; do_step (OAccept (n_of_int sid, AFailed false))
+         | _ -> ())
+      end else
       match k with
-      | "peer" | "pframe" ->
+      | "peer" ->
           let bytes = bytes_of_hex (if a = "" then "000400" else a) in
-          let frames =
-            if k = "peer" then (match rfc_read_varint bytes with
-                                | Some (t, rest) when t = N0 -> peer_open := true; control_frames rest
-                                | _ -> [])
-            else if !peer_open then control_frames bytes else [] in
-          List.iter (fun f -> do_step (OPeerControl (f, N0, N0, None))) frames;
-          if server then do_step OPoll
-      | "poll" -> if server then do_step OPoll
+          (match rfc_read_varint bytes with
+           | Some (t, rest) when t = N0 ->
+               if !peer_open then peer_control (n_of_int 0, [])     (* a second control stream: classified illegal (DATA) *)
+               else begin peer_open := true; control_stream rest end
+           | _ -> ());
+          end_of_poll ()
+      | "pframe" -> if !peer_open then control_stream (bytes_of_hex a); end_of_poll ()
+      | "puni" ->
+          (* one more unidirectional stream of the peer: a duplicate of a critical stream is a connection error, anything
+             else is ignored / stopped; nothing is ever written in answer *)
+          let illegal () = do_step (OPeerControl (PIllegal, N0, N0, None)) in
+          (match rfc_read_varint (bytes_of_hex (if a = "" then "000400" else a)) with
+           | Some (t, _) ->
+               (match int_of_n t with
+                | 0 -> illegal ()     (* generated only after `peer`: a second control stream *)
+                | 2 -> if !seen_enc then illegal () else seen_enc := true
+                | 3 -> if !seen_dec then illegal () else seen_dec := true
+                | _ -> ())
+           | None -> ());
+          end_of_poll ()
+      | "poll" -> end_of_poll ()
+      | "xu" -> do_step (OPeerControl (PIllegal, N0, N0, None)); lost := true
+      | "cstop" -> do_step OStopControl
       | "acc" when server ->
           let sid = !next_peer in next_peer := sid + 4;
           let before = nh () in
           let (kind, fin) = split2 a ':' in
           let stopped = fin <> "" && fin.[0] = 'S' in
           let small sz = N.ltb cfg.cf_mfs (n_of_int sz) in
-          let too = if stopped then AFailed false else ATooLarge [] in
+          (* the 431 answer is itself a response: it is not sent when the peer would not take it, or asked us to stop *)
+          let too = if stopped || not (fits response_size) then AFailed false else ATooLarge [] in
           let out = (match request_kind kind with
             | Req sz -> if small sz then too else AHandle stopped
             | Malformed sz -> if small sz then too else AFailed false
@@ -226,14 +344,16 @@ let run_wr role cfgs prog =
             | Nothing -> AFailed false) in
           do_step (OAccept (n_of_int sid, out));
           if nh () > before then cur := Some (nh () - 1)
-      | "recv" | "rehdr" -> ()
+      | "recv" | "rehdr" | "zfin" -> ()
       | "sstop" -> (match !cur with Some h -> do_step (OStopSending (n_of_int h)) | None -> ())
       | "req" when not server ->
           let before = nh () in
-          do_step (ORequest (Some []));
+          do_step (ORequest (if fits (request_size a) then Some [] else None));
           if nh () > before then cur := Some (nh () - 1)
-      | "resp" when server -> (match !cur with Some h -> do_step (OHeaders (n_of_int h, Some [])) | None -> ())
-      | "trailers" -> (match !cur with Some h -> do_step (OHeaders (n_of_int h, Some [])) | None -> ())
+      | "resp" when server ->
+          (match !cur with Some h -> do_step (OHeaders (n_of_int h, (if fits response_size then Some [] else None))) | None -> ())
+      | "trailers" ->
+          (match !cur with Some h -> do_step (OHeaders (n_of_int h, (if fits trailers_size then Some [] else None))) | None -> ())
       | "data" -> (match !cur with Some h -> do_step (OData (n_of_int h, List.filter (fun c -> c <> []) (chunks_of a))) | None -> ())
       | "finish" -> (match !cur with Some h -> do_step (OFinish (n_of_int h, N0)) | None -> ())
       | "stop" -> (match !cur with Some h -> do_step (OStop (n_of_int h)) | None -> ())
@@ -246,8 +366,8 @@ let run_wr role cfgs prog =
 let handle ws = match ws with
   | ["wb"; ctor; steps] -> run_wb ctor steps ^ " | " ^ spec_wb ctor
   | ["wbx"; ctor; steps] -> run_wb ctor steps
-  | ["wr"; role; cfg; _budget; prog] ->
-      let m = run_wr role cfg prog in
+  | ["wr"; role; cfg; budget; prog] ->
+      let m = run_wr role cfg budget prog in
       let toks = match words m with "ok" :: r -> r | _ -> [] in
       m ^ " | " ^ (if toks = [] && m <> "ok" then "none" else judge_line (role = "s") toks)
   | "judge" :: role :: toks -> judge_line (role = "s") toks
